@@ -522,7 +522,7 @@ pub fn drive(
                 qp.decision.push_str("park");
                 out.qpoints.push(qp);
                 out.parked += 1;
-                let wait = Duration::from_millis(if has_delay { 4000 } else { 200 });
+                let wait = Duration::from_millis(if has_delay { 10_000 } else { 200 });
                 let t = Instant::now();
                 while !fw.woken.load(Ordering::SeqCst) && t.elapsed() < wait {
                     HEARTBEAT.fetch_add(1, Ordering::Relaxed);
